@@ -450,7 +450,7 @@ def edges_implying_short(cfg, seq_text, max_len):
     return out
 
 
-def resolve_locals(fnode, expr, keep=(), max_rounds=6):
+def resolve_locals(fnode, expr, keep=(), max_rounds=6, scope=None):
     """Copy of ``expr`` in which every local that has exactly one binding in the function is replaced by what it was
     bound to, when that is a value-like expression (names, attributes, subscripts, arithmetic, comparisons) or one
     position of an unpacked value (`a, b = x` gives a -> x[0]).  Shape-independent comparison of conditions and
@@ -459,12 +459,19 @@ def resolve_locals(fnode, expr, keep=(), max_rounds=6):
 
     bind = {}
     counts = {}
-    for n in walk_function(fnode):
+    # with ``scope`` (a loop or other compound statement) only the bindings inside it count: a name that is bound once
+    # per iteration of that loop is resolved even if the function re-uses the name elsewhere
+    region = list(walk_function(fnode)) if scope is None else [x for x in ast.walk(scope) if x is not scope]
+    for n in region:
         if isinstance(n, ast.Name) and isinstance(n.ctx, (ast.Store, ast.Del)):
             counts[n.id] = counts.get(n.id, 0) + 1
+    if scope is not None and isinstance(scope, (ast.For, ast.AsyncFor)):
+        for n in ast.walk(scope.target):
+            if isinstance(n, ast.Name):
+                counts[n.id] = counts.get(n.id, 0) + 1
     a = fnode.args
     params = {x.arg for x in a.posonlyargs + a.args + a.kwonlyargs}
-    for n in walk_function(fnode):
+    for n in region:
         if isinstance(n, ast.Assign) and len(n.targets) == 1:
             t, v = n.targets[0], n.value
             if isinstance(t, ast.Name) and counts.get(t.id) == 1 and t.id not in params and t.id not in keep and _value_like(v):
@@ -498,14 +505,18 @@ def resolve_locals(fnode, expr, keep=(), max_rounds=6):
     return holder.body
 
 
-def resolved_guard_atoms(cfg, fnode, node, keep=()):
-    """Guard atoms of a CFG node with single-binding locals resolved (see resolve_locals)."""
+def resolved_guard_atoms(cfg, fnode, node, keep=(), scope=None):
+    """Guard atoms of a CFG node with single-binding locals resolved (see resolve_locals).  With ``scope`` only the
+    tests that lie inside that statement are considered (and locals are resolved within it)."""
     from .norm import atoms
 
+    inside = None if scope is None else {id(x) for x in ast.walk(scope)}
     out = set()
     for t, lab in cfg.dominating_edges(node):
         if cfg.kind(t) == "test" and lab in ("true", "false"):
-            out |= atoms(resolve_locals(fnode, cfg.ast(t), keep), lab == "true")
+            if inside is not None and id(cfg.ast(t)) not in inside:
+                continue
+            out |= atoms(resolve_locals(fnode, cfg.ast(t), keep, scope=scope), lab == "true")
     return out
 
 
